@@ -701,12 +701,57 @@ func (fr *Frame) inline(ctx *callCtx, callee *ssa.Function, bindings []Val, args
 // ---------- contract calls ----------
 
 // logRet records the results of a call of a layer function (readable in contracts as ret(F, i)).
-func (fr *Frame) logRet(ctx *callCtx, callee *ssa.Function, r Val) Val {
+func (fr *Frame) logRet(ctx *callCtx, calleeFn *ssa.Function, r Val) Val {
+	return fr.logRetSig(ctx, sigOfFunc(calleeFn), r)
+}
+
+// calleeSig describes the callee of a call by contract: a layer function, or a method of one of layer's
+// expected-keeper interfaces (assumed contract on a dependency).
+type calleeSig struct {
+	key, name string
+	pnames    []string // receiver first
+	ptypes    []types.Type
+	sig       *types.Signature
+}
+
+func (c calleeSig) Name() string { return c.name }
+
+func sigOfFunc(fn *ssa.Function) calleeSig {
+	cs := calleeSig{key: funcKey(fn), name: fn.Name(), sig: fn.Signature}
+	for _, p := range fn.Params {
+		cs.pnames = append(cs.pnames, p.Name())
+		cs.ptypes = append(cs.ptypes, p.Type())
+	}
+	return cs
+}
+
+// ifaceMethodKey is the contract key of an interface method of a layer interface type ("" otherwise).
+func ifaceMethodKey(cc *ssa.CallCommon) string {
+	np := namedPath(types.Unalias(cc.Value.Type()))
+	if !strings.HasPrefix(np, modPath+"/") {
+		return ""
+	}
+	return strings.TrimPrefix(np, modPath+"/") + "." + cc.Method.Name()
+}
+
+func sigOfMethod(cc *ssa.CallCommon) calleeSig {
+	sig := cc.Method.Type().(*types.Signature)
+	cs := calleeSig{key: ifaceMethodKey(cc), name: cc.Method.Name(), sig: sig}
+	cs.pnames = append(cs.pnames, "recv")
+	cs.ptypes = append(cs.ptypes, cc.Value.Type())
+	for i := 0; i < sig.Params().Len(); i++ {
+		cs.pnames = append(cs.pnames, sig.Params().At(i).Name())
+		cs.ptypes = append(cs.ptypes, sig.Params().At(i).Type())
+	}
+	return cs
+}
+
+func (fr *Frame) logRetSig(ctx *callCtx, callee calleeSig, r Val) Val {
 	e := fr.e
 	if e.vc.inline {
 		return r
 	}
-	rts := resultTypes(callee.Signature)
+	rts := resultTypes(callee.sig)
 	for i, t := range rts {
 		v := r
 		if len(rts) != 1 {
@@ -731,38 +776,47 @@ func (fr *Frame) logRet(ctx *callCtx, callee *ssa.Function, r Val) Val {
 
 // logCall records that a layer function was called and with which arguments (ghost call log, readable in
 // contracts as called(F) and arg(F, param)).
-func (fr *Frame) logCall(ctx *callCtx, callee *ssa.Function) {
+func (fr *Frame) logCall(ctx *callCtx, calleeFn *ssa.Function) {
+	fr.logCallSig(ctx, sigOfFunc(calleeFn))
+}
+
+func (fr *Frame) logCallSig(ctx *callCtx, callee calleeSig) {
 	e := fr.e
 	name := callee.Name()
 	e.setHeap(ctx.st, "called_"+mangle(name), "Bool", "true")
-	for i, p := range callee.Params {
+	for i, pname := range callee.pnames {
 		if i >= len(ctx.args) || ctx.args[i].S == "" || ctx.args[i].S == "addr" || len(ctx.args[i].Tup) > 0 {
 			continue
 		}
-		srt := e.vc.sortOf(p.Type())
+		pt := callee.ptypes[i]
+		srt := e.vc.sortOf(pt)
 		if srt == "GoTuple" {
 			continue
 		}
-		hn := "callarg_" + mangle(name) + "_" + mangle(p.Name())
+		hn := "callarg_" + mangle(name) + "_" + mangle(pname)
 		e.setHeap(ctx.st, hn, srt, ctx.args[i].S)
-		e.callArgTypes[hn] = p.Type()
+		e.callArgTypes[hn] = pt
 		// running sum of numeric arguments over all calls (argsum(F, p) in contracts)
-		switch kindOf(p.Type()) {
+		switch kindOf(pt) {
 		case kInt, kMathInt, kDec:
-			sn := "callsum_" + mangle(name) + "_" + mangle(p.Name())
+			sn := "callsum_" + mangle(name) + "_" + mangle(pname)
 			e.setHeap(ctx.st, sn, "Int", app("+", e.heap(ctx.st, sn, "Int"), ctx.args[i].S))
 		}
 	}
 }
 
-func (fr *Frame) contractCall(ctx *callCtx, callee *ssa.Function, c *Contract) Val {
+func (fr *Frame) contractCall(ctx *callCtx, calleeFn *ssa.Function, c *Contract) Val {
+	return fr.contractCallSig(ctx, sigOfFunc(calleeFn), c)
+}
+
+func (fr *Frame) contractCallSig(ctx *callCtx, callee calleeSig, c *Contract) Val {
 	e := fr.e
 	st := ctx.st
-	fr.logCall(ctx, callee)
+	fr.logCallSig(ctx, callee)
 	names := map[string]Val{}
-	for i, p := range callee.Params {
+	for i, pname := range callee.pnames {
 		if i < len(ctx.args) {
-			names[p.Name()] = ctx.args[i]
+			names[pname] = ctx.args[i]
 			if i < len(c.ParamNames) && c.ParamNames[i] != "" {
 				names[c.ParamNames[i]] = ctx.args[i]
 			}
@@ -770,7 +824,7 @@ func (fr *Frame) contractCall(ctx *callCtx, callee *ssa.Function, c *Contract) V
 	}
 	pre := st.clone()
 	envPre := &evalEnv{e: e, st: pre, old: pre, lookup: func(n string) (Val, bool) { v, ok := names[n]; return v, ok }}
-	short := lastName(funcKey(callee))
+	short := lastName(callee.key)
 	for _, r := range c.Requires {
 		f := e.evalBool(r.expr, envPre)
 		e.addObl(st, "call("+short+").requires", fr.lbl(r.label), f, ctx.pos)
@@ -792,7 +846,7 @@ func (fr *Frame) contractCall(ctx *callCtx, callee *ssa.Function, c *Contract) V
 	for k, v := range names {
 		rn[k] = v
 	}
-	rts := resultTypes(callee.Signature)
+	rts := resultTypes(callee.sig)
 	for i := range rts {
 		var v Val
 		if len(rts) == 1 {
@@ -811,11 +865,11 @@ func (fr *Frame) contractCall(ctx *callCtx, callee *ssa.Function, c *Contract) V
 		}
 		f := e.evalBool(en.expr, envPost)
 		if os.Getenv("GOVC_DEBUG") != "" {
-			fmt.Fprintf(os.Stderr, "ENSURES %s [%s] tag=%d inline=%v: %.200s\n", funcKey(callee), en.label, e.vc.curTag, e.vc.inline, f)
+			fmt.Fprintf(os.Stderr, "ENSURES %s [%s] tag=%d inline=%v: %.200s\n", callee.key, en.label, e.vc.curTag, e.vc.inline, f)
 		}
 		e.assumeIn(st, f)
 	}
-	e.usedContracts[funcKey(callee)] = true
+	e.usedContracts[callee.key] = true
 	return res
 }
 
